@@ -434,6 +434,12 @@ func checkC04(line string, dist map[string]int) (detail, sig, class string) {
 
 	// the run under test
 	pb, events := buildC04(mode, seq)
+	// the property speaks about every parser built from the configured builder: in two
+	// thirds of the cases the observed one is the 2nd or 3rd built from it
+	for k := len(src) % 3; k > 0; k-- {
+		observeC04(pb, src)
+		*events = (*events)[:0]
+	}
 	got := observeC04(pb, src)
 	parseEvents := append([]event(nil), *events...)
 	desc := fmt.Sprintf("with interceptors %s (mode %s) on %q", f[1], mode, src)
